@@ -279,6 +279,12 @@ def run_case(case, drv):
     plain = instantiate(gs)
     has_eps = any(not body for _, body in gs["prods"])
     scope = ["eps_production"] if has_eps else []
+    skeletons = [(h[0], tuple((i[0], i[1]) for i in body)) for h, body in gs["prods"]]
+    feats = [(h[1], tuple((i[2] if i[0] == "v" else None) for i in body)) for h, body in gs["prods"]]
+    if any(skeletons[i] == skeletons[j] and feats[i] != feats[j]
+           for i in range(len(skeletons)) for j in range(i + 1, len(skeletons))):
+        # two rules with the same head and body symbols but different features share one chart key (KF-C18-3)
+        scope.append("duplicate_skeleton")
     ters = sorted(gs["ters"])
     words = G.words_upto(ters, 3 if len(ters) > 2 else 4)[:60]
     mem = drv.call("cfg.member", G=plain, words=words)
